@@ -40,6 +40,12 @@ func runC02(c *Ctx) {
 // recv.relayListener. Returns the originating call.
 func (w *World) srcOfSameInput(v ssa.Value, recv ssa.Value) (*ssa.Call, string) {
 	v = stripIface(v)
+	// the source may travel in a by-value struct (datagram.from) or a single-store local
+	if r := stripIface(w.resolveLoad(v)); r != v {
+		if _, isP := r.(*ssa.Parameter); !isP {
+			v = r
+		}
+	}
 	for {
 		if ex, ok := v.(*ssa.Extract); ok {
 			if ta, ok := ex.Tuple.(*ssa.TypeAssert); ok && ex.Index == 0 {
